@@ -122,3 +122,12 @@ def apply_on_axes(arr, mats, naxes):
     for k in range(naxes):
         arr = np.moveaxis(np.tensordot(mats[k], arr, (1, k)), 0, k)
     return arr
+
+
+def rel_tol(fname, ref):
+    """tolerance of a relational comparison between two evaluations of the same quantity: 1e-9 of the largest magnitude
+    (1e-6 for the repulsion array, the property's own slack) plus an absolute floor of 1e-12 — the quantities are
+    matrix elements of normalised functions, so exact zeros (by parity, e.g. the momentum matrix of a single shell) come out
+    as rounding noise of order 1e-17 that must not be compared relatively"""
+    import numpy as np
+    return (1e-6 if fname.startswith("eri") else 1e-9) * float(np.abs(ref).max() if np.size(ref) else 0.0) + 1e-12
